@@ -1,4 +1,6 @@
 """C08 -- market price, quotes and step statistics are what book and fills imply."""
+from hypothesis import strategies as st
+
 from ..market_machine import market_cases
 from ._market_common import frac, fuzz_part, make_check
 
@@ -6,7 +8,10 @@ ID = "C08"
 RULE = ("(one history in four sets the market up with the optional keys Market.setup documents -- tradeVolume, outstandingShares, fundamentalPrice -- which leave book and statistics alone) Histories as for C01 with running on/off toggles and expiries. After every op the real market's best bid/ask, "
         "both depth dicts, market/mid/last-executed price series, executed volume, turnover, order counts and VWAP are "
         "compared with the reference price state machine driven by the ACTUAL fills. Non-trivial = history with a "
-        "running->off->running switch, a trade and an expiry that changes a best quote.")
+        "running->off->running switch, a trade and an expiry that changes a best quote. "
+        "(reopen) short histories built around a pause: 0-4 orders and rounds while running, the market switched off, 1-5 limit orders "
+        "(with cancels of the best order and clock steps) while it is closed, switched on again, at most one event, then 1-3 quiet clock "
+        "steps; non-trivial = the running state switched.")
 ASSUMPTIONS = ["thorough tier adds a coverage-guided atheris campaign over byte-decoded histories (16 processes, half from an empty corpus); its saved decoded case, not the campaign, is the reproducible unit",
                "turnover compared with rel 1e-12, VWAP with rel 1e-9; everything else exactly"]
 
@@ -29,6 +34,47 @@ def _deep_strategy(tier):
 
 PARTS["deep"] = {"check": make_check({"C08"}, _nt), "strategy": _deep_strategy, "budget": {"quick": 2000, "thorough": 40000}}
 PARTS["fuzz"] = fuzz_part("C08", {"C08"}, _nt)
+
+
+@st.composite
+def _reopen_cases(draw, tier):
+    """what a market shows after a pause: orders (and cancels) arrive while it is closed, it is switched back on, and quiet
+    clock steps follow -- the market price of those steps comes from the clock step alone (last trade, else mid quote), since no
+    order event refreshes it in between"""
+    tick = draw(st.sampled_from([1.0, 0.5, 0.1, 2.5]))
+    lv = draw(st.integers(min_value=8, max_value=400))
+    px = st.integers(min_value=-3, max_value=3).map(lambda k: (lv + k) * tick)
+
+    def limit():
+        return ["L", draw(st.booleans()), draw(px), draw(st.integers(1, 3)), draw(st.sampled_from([None, None, 1, 3])), draw(st.integers(0, 3))]
+
+    ops = []
+    running0 = draw(st.booleans())
+    if running0:
+        for _ in range(draw(st.integers(0, 4))):
+            ops.append(limit())
+            if draw(st.booleans()):
+                ops.append(["X"])
+        ops += [["T"]] * draw(st.integers(0, 2))
+        ops.append(["R", False])
+    for _ in range(draw(st.integers(1, 5))):
+        ops.append(limit())
+        r = draw(st.integers(0, 5))
+        if r == 0:
+            ops.append(["CB", draw(st.booleans())])
+        elif r == 1:
+            ops.append(["T"])
+    ops.append(["R", True])
+    if draw(st.integers(0, 2)) == 0:
+        ops.append(draw(st.sampled_from([["X"], ["CB", True], ["CB", False]])))
+    ops += [["T"]] * draw(st.integers(1, 3))
+    if draw(st.booleans()):
+        ops += [limit(), ["X"], ["T"]]
+    return {"tick": tick, "p0": (lv + draw(st.integers(-5, 5))) * tick, "continuous": draw(st.booleans()), "running0": running0, "ops": ops,
+            "rewrite_every": None}
+
+
+PARTS["reopen"] = {"check": make_check({"C08"}, lambda f: bool(f.get("run_switch"))), "strategy": _reopen_cases, "budget": {"quick": 1500, "thorough": 30000}}
 
 
 def vacuity(merged, tier):
